@@ -194,6 +194,43 @@ def run_expr(c):
     return {"o": "graphs", "g": [graph(g) for g in gs]}
 
 
+def _names(g, acc):
+    n = g[0]
+    if n[0] == "N":
+        acc.add("".join(chr(c) for c in n[1]))
+    for ch in g[1]:
+        _names(ch, acc)
+
+
+def removal_ok(s1, s2, graphs1):
+    """Register a handler by the text s1 on a small object graph that has every named trait of the pattern, then
+    remove it by the text s2: removal by text must match registration by text.  True when the registration itself
+    is not possible on this probe (nothing to check: None)."""
+    names = set()
+    for g in graphs1:
+        _names(g, names)
+    names = sorted(names)[:8]
+    try:
+        cls = type(HasTraits)("Q", (HasTraits,), {n: Any() for n in names})
+
+        def mk(d):
+            o = cls()
+            if d > 0:
+                for n in names:
+                    setattr(o, n, mk(d - 1))
+            return o
+
+        root = mk(2 if len(names) <= 4 else 1)
+        root.observe(_handler, s1)
+    except BaseException:   # noqa: B902
+        return None
+    try:
+        root.observe(_handler, s2, remove=True)
+    except BaseException:   # noqa: B902  (NotifierNotFound: the second spelling did not match the first)
+        return False
+    return True
+
+
 def run_case(c):
     if c["kind"] == "expr":
         return run_expr(c)
@@ -211,7 +248,11 @@ def run_case(c):
             hasheq = [hash(g) for g in g1] == [hash(g) for g in g2]
         except BaseException:   # noqa: B902
             hasheq = False
-    return {"o1": o1, "o2": o2, "pyeq": pyeq, "hasheq": hasheq}
+    removal = None
+    if c.get("same", True) and o1["o"] == "graphs" and o2["o"] == "graphs":
+        removal = removal_ok(c["s1"], c["s2"], o1["g"])
+    return {"o1": o1, "o2": o2, "pyeq": pyeq, "hasheq": hasheq, "removal": removal is not False,
+            "removal_checked": removal is not None}
 
 
 def run_blocks(job):
